@@ -28,6 +28,7 @@ type Config struct {
 	ExtraAssume string
 	Guards       []Guard
 	MaxAlloc     int
+	AltModels    int // alternative models per RN-dependent violated obligation
 	NoIfConv     bool
 	NoWrapQuery  bool
 	SampleModels int                  // number of completed-path input models to record
@@ -87,6 +88,7 @@ type Result struct {
 	SolverErrors int                 `json:"solver_errors"`
 	Aborted      string              `json:"aborted,omitempty"`
 	ApproxPaths  int                 `json:"approx_paths"`
+	RNUsed       bool                `json:"rn_used"`
 	IfConverted  int                 `json:"if_converted"`
 	WrapQueries  int                 `json:"wrap_queries"`
 	WrapElided   int                 `json:"wrap_elided"`
@@ -320,6 +322,7 @@ func (in *Interp) Run(entry *ssa.Function) *Result {
 	sort.Strings(in.Res.StubsUsed)
 	in.Res.SolverS = in.Sol.Time.Seconds()
 	in.Res.SolverErrors = in.Sol.Errors
+	in.Res.RNUsed = in.rnUsed
 	return in.Res
 }
 
@@ -634,7 +637,8 @@ func (in *Interp) obligation(st *State, id, kind, site string, cond *Term, msg s
 				}
 				// spread the alternatives over the input space: pseudo-random residues and growing magnitudes
 				primes := []int64{1009, 10007, 100003, 997, 9973, 99991, 1013, 10009, 100019, 991, 9967, 99989}
-				for k := 0; k < len(primes); k++ {
+				altStart := time.Now()
+				for k := 0; k < in.Cfg.AltModels && time.Since(altStart) < 90*time.Second; k++ {
 					cons := append([]*Term{}, extra...)
 					for vi, v := range st.Inputs {
 						if v.Sort != SInt || v.Lo == nil || v.Hi == nil {
@@ -645,10 +649,10 @@ func (in *Interp) obligation(st *State, id, kind, site string, cond *Term, msg s
 							continue
 						}
 						p := primes[(k+vi)%len(primes)]
-						res := (int64(k)*7919 + int64(vi)*104729 + 13) % p
+						res := (int64(k)*7919 + int64(vi)*104729 + int64(k/len(primes))*611953 + 13) % p
 						cons = append(cons, Eq(EMod(v, IntC(p)), IntC(res)))
 						if k%3 != 0 {
-							lb := new(big.Int).Lsh(big.NewInt(1), uint(3*k))
+							lb := new(big.Int).Lsh(big.NewInt(1), uint(3*(k%12)))
 							if new(big.Rat).SetInt(lb).Cmp(v.Hi) < 0 {
 								cons = append(cons, Ge(v, BigC(lb)))
 							}
